@@ -1,17 +1,23 @@
 """C04 — latency, service time and processing time mean what the docs say (one client's executor on a virtual clock)."""
+import json
+
 from harness import exec_common as ec
 from harness.framework import Stream
 
 PROPERTY = "C04"
 RULE = ("one client's real AsyncExecutor run on a virtual-time asyncio loop against a simulated endpoint, from generated task parameters and "
-        "per-request plans (parameter generation / pre / wire / post durations, runner outcome incl. real elasticsearch exceptions, "
-        "on-error policy, queue capacity); non-trivial = at least two samples; signature = (model branch tags: loop control, stop reason, "
-        "scheduler in force, throttled/waited/behind/ramp/queue-drop/errors, result class, exact-or-float)")
+        "per-request plans (parameter generation / request program = wire requests in nested request contexts with a failing one at any position / "
+        "post durations, runner outcome incl. real elasticsearch exceptions, on-error policy, queue capacity), also through the real composite runner; "
+        "Sampler.add pre-empted by the worker's drain at every bytecode boundary (isolated and inside executor runs); non-trivial = at least two samples "
+        "/ at least three distinct interleaving outcomes; signature = (model branch tags: loop control, stop reason, scheduler in force, "
+        "throttled/waited/behind/ramp/queue-drop/errors, nested/multi-wire/fail-first/fail-later/no-wire, result class, exact-or-float)")
 TRUSTED = [
     "the virtual-time loop (harness/sim_vloop.py) is a faithful asyncio loop apart from jumping the clock; the `time` module of "
     "esrally.driver.driver / runner / client.context is replaced by a shim reading the same clock",
     "the simulated endpoint calls the request-context hooks around the wire time exactly like the aiohttp trace callbacks of the real client",
     "theorems are stated for exact rational time (r = id); IEEE rounding is covered by the correspondence in `dbl` mode only",
+    "pre-emption exploration (harness/preempt.py): the other thread's operation runs completely at a trace event (call/line/opcode) of the "
+    "pre-empted thread; points where the queue's mutex is held are skipped; queue.Queue's internal thread-safety is trusted",
 ]
 ASSUMPTIONS = [
     "a request counts as throttled when its scheduled time is > 0 (the executor's own criterion); the first request of a throttled task is "
@@ -22,12 +28,56 @@ ASSUMPTIONS = [
 
 def gen_exact(ctx):
     for _ in range(ctx.budget):
-        yield ec.gen_case(ctx.rng, True, "timing")
+        case = ec.gen_case(ctx.rng, True, "timing")
+        if ctx.rng.random() < 0.4:
+            ec.add_programs(ctx.rng, case, True)
+        yield case
 
 
 def gen_float(ctx):
     for _ in range(ctx.budget):
-        yield ec.gen_case(ctx.rng, False, "timing")
+        case = ec.gen_case(ctx.rng, False, "timing")
+        if ctx.rng.random() < 0.4:
+            ec.add_programs(ctx.rng, case, False)
+        yield case
+
+
+def gen_nested(ctx):
+    """every request is a program of several wire requests in nested request contexts; errors with on-error=continue are frequent,
+    the failing wire request sits at any position"""
+    rng = ctx.rng
+    for _ in range(ctx.budget):
+        exact = rng.random() < 0.7
+        case = ec.gen_case(rng, exact, "timing")
+        for q in case["reqs"]:
+            if rng.random() < 0.35 and q["out"]["k"] not in ec.RAISING_KINDS:
+                q["out"] = rng.choice([{"k": "api", "status": rng.choice([400, 404, 429, 500])}, {"k": "transport", "status": None}, {"k": "timeout"}, {"k": "tls"}])
+        if rng.random() < 0.85:
+            case["on_error"] = "continue"
+        ec.add_programs(rng, case, exact, share=0.9)
+        yield case
+
+
+def gen_composite(ctx):
+    """the REAL `composite` runner (Composite -> RequestTiming -> raw-request) with sequential raw requests against the simulated
+    client: every stream item runs in its own nested request context; sub-requests fail at any position"""
+    rng = ctx.rng
+    for _ in range(ctx.budget):
+        exact = rng.random() < 0.7
+        case = ec.gen_case(rng, exact, "timing")
+        for q in case["reqs"]:
+            if rng.random() < 0.3 and q["out"]["k"] not in ec.RAISING_KINDS:
+                q["out"] = rng.choice([{"k": "api", "status": rng.choice([400, 404, 429, 500])}, {"k": "transport", "status": None}, {"k": "timeout"}])
+            q["rc"] = q["rp"] = None
+        case["runner_completion"] = False
+        case["composite"] = True
+        tp = (case["task"].get("tput") or {}).get("tt")
+        if tp and tp["kind"] == "str" and " " in tp["s"]:
+            tp["s"] = tp["s"].split(" ")[0] + " ops/s"  # the composite runner reports in ops
+        if rng.random() < 0.85:
+            case["on_error"] = "continue"
+        ec.add_programs(rng, case, exact, flat_composite=True)
+        yield case
 
 
 def gen_slow(ctx):
@@ -45,8 +95,152 @@ def run(ctx, case):
     ec.run_exec(ctx, case, [ec.oracle_c04])
 
 
+# ------------------------------------------------------------------------------------------------
+# Sampler.add pre-empted by the worker thread's drain (Sampler.samples) at every possible point
+# ------------------------------------------------------------------------------------------------
+def gen_sampler(ctx):
+    rng = ctx.rng
+    for _ in range(ctx.budget):
+        yield {"cap": rng.choice([1, 2, 3, 5, 8, 100, 16384]), "before": rng.randrange(0, 7), "quiet_drain": rng.random() < 0.4, "after": rng.randrange(0, 4)}
+
+
+def run_sampler(ctx, case):
+    """explores every pre-emption point of one `Sampler.add` (opcode granularity, callees included): the worker's drain runs there.
+    Each add must end up exactly once: in exactly one drained batch or as a logged queue-full drop."""
+    from esrally import metrics
+    from esrally.driver import driver
+
+    from harness import preempt
+
+    cap, nb, na = case["cap"], case["before"], case["after"]
+
+    class Task:
+        class operation:
+            name = "op"
+
+    def fresh():
+        s = driver.Sampler(start_timestamp=0.0, buffer_size=cap)
+        warns = []
+
+        class Log:
+            def warning(self, *a, **k):
+                warns.append(a)
+
+        s.logger = Log()
+
+        def add(i):
+            s.add(Task, 3, metrics.SampleType.Normal, {"success": True}, 1.0, 0.5, 0.25, 0.125, 0.25, None, i, "ops", 1.5, None)
+
+        for i in range(nb):
+            add(i)
+        st = {"s": s, "warns": warns, "add": add, "quiet": None, "warns_at_k": None, "warns_before": None}
+        if case["quiet_drain"]:
+            st["quiet"] = [x.total_ops for x in s.samples]
+        st["warns_before"] = len(warns)
+        return st, (lambda: add(nb))
+
+    def other(st):
+        def drain():
+            st["warns_at_k"] = len(st["warns"])
+            return [x.total_ops for x in st["s"].samples]
+
+        return drain
+
+    npoints = 0
+    outcomes = set()
+    for fired, at_k, st, (_, exc) in preempt.explore(fresh, lambda code: code is driver.Sampler.add.__code__, other, lambda st: (lambda: [st["s"].q.mutex])):
+        if exc is not None:
+            ctx.fail("sampler-preempt", f"Sampler.add raised {type(exc).__name__} when pre-empted at {fired.where() if fired else None}", None, str(exc))
+            continue
+        for i in range(nb + 1, nb + 1 + na):
+            st["add"](i)
+        final = [x.total_ops for x in st["s"].samples]
+        batches = ([st["quiet"]] if st["quiet"] is not None else []) + ([at_k] if fired is not None else []) + [final]
+        drained = [x for b in batches for x in b]
+        added = list(range(nb + 1 + na))
+        where = None if fired is None else fired.where()
+        # direct oracle: exactly one sample per add — in one batch, or reported as dropped
+        if len(set(drained)) != len(drained) or not set(drained) <= set(added) or len(drained) + len(st["warns"]) != len(added):
+            lost = sorted(set(added) - set(drained))
+            ctx.fail("sample-lost-under-preemption", f"drain by the worker thread while Sampler.add was at {where}: adds {added}, batches {batches}, "
+                     f"{len(st['warns'])} reported drops", "every add exactly once in a batch or reported as dropped", {"lost_or_dropped": lost, "batches": batches})
+        # model: position of the drain relative to the put = did the traced sample (or its drop warning) exist when the drain ran?
+        if fired is None:
+            traced = ["eval", "build", {"call": nb}]
+        elif nb in at_k or st["warns_at_k"] > st["warns_before"]:
+            traced = ["eval", "build", {"call": nb}, "drain"]
+        else:
+            traced = ["eval", "drain", "build", {"call": nb}]
+        events = []
+        for i in range(nb):
+            events += ["eval", "build", {"call": i}]
+        if case["quiet_drain"]:
+            events.append("drain")
+        events += traced
+        for i in range(nb + 1, nb + 1 + na):
+            events += ["eval", "build", {"call": i}]
+        events.append("drain")
+        key = json.dumps(events)
+        if key not in outcomes:
+            outcomes.add(key)
+            m = ctx.model("exec", "sampler", {"cap": cap, "events": events})
+            if m["r"]["batches"] != batches or len(m["r"]["dropped"]) != len(st["warns"]) or m["r"]["queue"] != []:
+                ctx.diff("sampler-interleaving", {"batches": m["r"]["batches"], "dropped": m["r"]["dropped"]}, {"batches": batches, "drops": len(st["warns"]), "at": where})
+        elif False:
+            pass
+        npoints += 1
+    ctx.count("preempt-points", npoints)
+    ctx.sig([cap <= nb, case["quiet_drain"], na > 0, len(outcomes)], nontrivial=len(outcomes) >= 3)
+
+
+def gen_exec_preempt(ctx):
+    rng = ctx.rng
+    for _ in range(ctx.budget):
+        exact = rng.random() < 0.8
+        case = ec.gen_case(rng, exact, "timing")
+        case["reqs"] = case["reqs"][:6]
+        case["queue_cap"] = 16384
+        if rng.random() < 0.5:
+            ec.add_programs(rng, case, exact)
+        case["preempt_add"] = rng.randrange(0, 6)
+        yield case
+
+
+def run_exec_preempt(ctx, case):
+    """the whole executor run with the worker thread draining inside the j-th Sampler.add, for every pre-emption point of that add:
+    the union of what the worker received must be the run's samples, each exactly once (and equal to the model's)"""
+    base = dict(case)
+    j = base.pop("preempt_add")
+    a = dict(base, mode="dbl")
+    m = ec.canon_model(ctx.model("exec", "run", a))
+    k = 0
+    points = 0
+    while True:
+        impl = ec.run_impl(dict(base, drain_at={"add": j, "k": k}))
+        ci = ec.canon_impl(impl)
+        if ci != m:
+            keys = [x for x in ci if ci[x] != m[x]]
+            ctx.diff(f"run[dbl] drained at add {j} point {k} ({impl.get('preempt_fired')}):" + ",".join(keys), {x: m[x] for x in keys}, {x: ci[x] for x in keys})
+        c2 = dict(base)
+        c2["exact"] = False
+        ec.oracle_c04(ctx, c2, impl)
+        if impl.get("preempt_fired") is None:
+            break
+        points += 1
+        k += 1
+        if k > 2000:
+            raise ec.HarnessError("pre-emption exploration does not terminate")
+    ctx.count("preempt-points", points)
+    ctx.count("result:" + m["result"])
+    ctx.sig([m["result"], points > 0, len(m["samples"]) > j], nontrivial=points > 0)
+
+
 STREAMS = [
-    Stream("exec_exact", gen_exact, run, quick=8000, thorough=400000, shards=16),
-    Stream("exec_float", gen_float, run, quick=5000, thorough=300000, shards=16),
+    Stream("exec_exact", gen_exact, run, quick=8000, thorough=300000, shards=16),
+    Stream("exec_float", gen_float, run, quick=5000, thorough=200000, shards=16),
     Stream("exec_slow_service", gen_slow, run, quick=2500, thorough=100000, shards=8),
+    Stream("exec_nested_contexts", gen_nested, run, quick=4000, thorough=200000, shards=16),
+    Stream("exec_real_composite", gen_composite, run, quick=3000, thorough=150000, shards=16),
+    Stream("sampler_preempt", gen_sampler, run_sampler, quick=320, thorough=8000, shards=16),
+    Stream("exec_preempt_drain", gen_exec_preempt, run_exec_preempt, quick=64, thorough=1600, shards=16),
 ]
